@@ -17,6 +17,9 @@ def run_oracle_groups(groups, wd, per_tu=40):
     n = 0; fails = []; infra = []; samples = []
     for r in rres:
         rr = r["res"]
+        if rr.get("rejected"):
+            symrun.REJECTED.append({"group": r["group"]["key"], "call": r["calls"][0], "why": symrun.first_error(rr["compile_out"])})
+            continue
         if rr["rc_compile"] != 0 or rr["rc_run"] != 0:
             infra.append({"group": r["group"]["key"], "what": "compile" if rr["rc_compile"] else "run rc=%s" % rr["rc_run"],
                           "calls": r["calls"][:3], "out": (rr["compile_out"][-2500:] if rr["rc_compile"] else (rr.get("out", "")[-800:] + rr.get("err", "")))})
@@ -30,7 +33,7 @@ def run_oracle_groups(groups, wd, per_tu=40):
     return n, fails, infra, samples
 
 def standard_run(pid, tier, seed, theorem, model_name, sym_groups_fn, oracle_groups_fn=None, assumptions=(), rule="",
-                 nontrivial=lambda inp, mo: True, extra_cov=None, per_tu=40, ignore=()):
+                 nontrivial=lambda inp, mo: True, extra_cov=None, per_tu=40, ignore=(), ofail_key=None):
     v = core.Verdict(pid, tier, seed)
     v.assumptions = list(assumptions)
     ok, info = core.proof_stage(v, pid, thorough=(tier == "thorough"))
@@ -48,12 +51,15 @@ def standard_run(pid, tier, seed, theorem, model_name, sym_groups_fn, oracle_gro
         real_n, real_fail, rinfra, rsamples = run_oracle_groups(og, wd, per_tu)
         report_infra(v, infra + rinfra)
         for f in ofail:
-            v.violation("sym " + f["input"], {"kind": "sym-oracle", "group": f["group"], "input": f["input"], "impl": f["impl"], "model": f["model"]})
+            key = ofail_key(f) if ofail_key else None
+            v.violation(key or ("sym " + f["input"]), {"kind": "sym-oracle", "group": f["group"], "input": f["input"], "impl": f["impl"], "model": f["model"]})
         for g, line, call in real_fail:
             v.violation("real " + line.split("|")[0].strip(),
                         {"kind": "real-oracle", "group": g["key"], "isa": g["isa"], "defs": list(g.get("defs", ())), "std": g.get("std", "c++14"),
                          "opt": g.get("opt", "-O1"), "header": g["header"], "pre": g.get("pre", ""), "line": line, "call": call})
-        if mism and not ofail:
+        ofail_inputs = set(f["input"] for f in ofail)
+        mism = [m for m in mism if m["input"] not in ofail_inputs]
+        if mism:
             keys = sorted(set(m["group"] for m in mism))
             groups = [g for g in sym_groups_fn("thorough", seed + 17) if g["key"] in keys]
             res2 = symrun.run_groups(groups, wd, per_tu=per_tu)
@@ -79,6 +85,9 @@ def standard_run(pid, tier, seed, theorem, model_name, sym_groups_fn, oracle_gro
                   "samples": [{"input": l[0], "impl": l[1], "model": l[2]} for l in lines[:3]] + rsamples,
                   "route_hits": routes, "sym_cases": n, "oracle_cases": real_n, "mismatches": len(mism),
                   "oracle_failures": len(ofail) + len(real_fail), "configs": sorted(set(g["key"] for g in sg))})
+    if symrun.REJECTED:
+        v.cov["compile_rejected"] = {"count": len(symrun.REJECTED), "examples": symrun.REJECTED[:8],
+                                     "note": "instantiations the library does not accept at compile time; they are excluded from the box and not judged"}
     if extra_cov:
         v.cov.update(extra_cov)
     return v.finish()
